@@ -703,10 +703,10 @@ func (w *World) Run() {
 		i := w.choice("act", len(acts))
 		last = acts[i].label
 		fmt.Fprintf(w.schedHash, "%s\n", last)
-		acts[i].do()
 		w.mu.Lock()
 		w.Step++
 		w.mu.Unlock()
+		acts[i].do()
 	}
 	synctest.Wait()
 	w.absorb(last)
